@@ -39,12 +39,14 @@ Qed.
 
 (* ---- split ------------------------------------------------------------------------- *)
 Lemma range_lookahead r rest : op_stops rest ->
-  exists x, run (PAlt r_number r_range_part) true (print_range r ++ rest) = Some x.
+  exists x, run num_or_range true (print_range r ++ rest) = Some x.
 Proof.
-  intros Hst. rewrite run_alt. destruct r as [i | [a|] b inc]; cbn [print_range print_optz].
-  - rewrite (run_number_print true i rest (op_stops_no_digit rest Hst)). eexists; reflexivity.
-  - rewrite <- app_assoc. rewrite (run_number_print true a); [eexists; reflexivity|]. destruct inc; reflexivity.
-  - cbn [app]. destruct inc; cbn [dots app]; (rewrite run_number_fail; [|reflexivity|discriminate]); apply range_part_dots.
+  intros Hst. destruct r as [i | [a|] b inc]; cbn [print_range print_optz].
+  - cbv [num_or_range r_split_content]. rewrite run_alt.
+    rewrite (run_number_print true i rest (op_stops_no_digit rest Hst)). eexists; reflexivity.
+  - cbv [num_or_range r_split_content]. rewrite run_alt. rewrite <- app_assoc.
+    rewrite (run_number_print true a); [eexists; reflexivity|]. destruct inc; reflexivity.
+  - cbn [app]. destruct inc; cbn [dots app]; apply num_or_range_dots.
 Qed.
 
 Lemma run_rule_normal_atomic (id : rule) (body : peg rule) inp :
@@ -57,7 +59,7 @@ Proof. reflexivity. Qed.
 
 Lemma split_stop_colon r rest : op_stops rest -> run split_alt true (58 :: print_range r ++ rest) = None.
 Proof.
-  intros Hst. destruct (range_lookahead r rest Hst) as (x & Hx).
+  intros Hst. destruct (range_lookahead r rest Hst) as (x & Hx). cbv [num_or_range r_split_content] in Hx.
   unfold split_alt. rewrite run_alt.
   assert (H1: run r_split_escaped_char true (58 :: print_range r ++ rest) = None) by reflexivity. rewrite H1.
   unfold r_split_content. rewrite run_rule_normal_atomic, run_seq, run_not, run_seq.
